@@ -67,7 +67,7 @@ def build(tier, seed):
                 'stated length with each sample held for k steps, float64; non-trivial = non-constant word' % ROOT,
         'bounds': bounds,
         'required_classes': ['flat-start', 'flat-end', 'interior-plateau-extremum', 'interior-plateau-nonextremum',
-                             'starts-rising', 'starts-falling', 'ptype-max', 'ptype-min', 'ncyc-switched', 'stretched-long-record', 'huge-first-sample'],
+                             'starts-rising', 'starts-falling', 'ptype-max', 'ptype-min', 'ncyc-switched', 'stretched-long-record', 'huge-first-sample', 'sibling-functions-called-before'],
         'assumptions': ['index-valued outputs are compared exactly', 'reference: run-compression scanner (mcheck/refs/peaks_ref.py)',
                         'constant series are outside the statement and skipped (counted as disabled)'],
     }
@@ -122,6 +122,29 @@ def check_word(r, w, fam, containers=('f', 'i', 'l'), label=None):
             ok, got = r.call(pt, sub, pc.get_peak_array_indices, arr, pt)
             if ok:
                 r.expect_ints('ptype.' + pt, sub, got, [i for i, k in zip(idx, kinds) if k == pt])
+    # ---- the other public functions of the module were called on the SAME array before (the peaks-only series, the cycle counter, the
+    #      switched peaks, the crossings): whatever they keep or share, the peak indices are those of the record.  The record is rebased to
+    #      start at exactly 0 (w - w[0]: same turning points), so words that fall first go negative.
+    if n <= 6:
+        x0 = np.array([v - w[0] for v in w], dtype=float)
+        snap0 = x0.tobytes()
+        for sib in (pc.determine_peaks_only_delta_series, pc.determine_pseudo_cyclic_peak_only_series, pc.get_n_cyc_array,
+                    pc.get_switched_peak_array_indices, pc.get_zero_crossings_array_indices):
+            try:
+                sib(x0)
+            except Exception:
+                pass
+        r.cls('sibling-functions-called-before')
+        sub = dict(sub0, input='rebased to start at 0, after the other functions of the module on the same array')
+        r.n_cmp += 1
+        if x0.tobytes() != snap0:
+            r.fail('all.array-unchanged', sub, 'one of the module\'s functions modified the array it was given', observed=x0)
+            x0 = np.array([v - w[0] for v in w], dtype=float)
+        for pt in ('all', 'max', 'min'):
+            ok, got = r.call(pt, sub, pc.get_peak_array_indices, x0, pt)
+            if ok:
+                r.expect_ints('all.equals-turning-points' if pt == 'all' else 'ptype.' + pt, sub, got,
+                              idx if pt == 'all' else [i for i, k in zip(idx, kinds) if k == pt])
     # object-level wrapper, also on an object whose record is replaced between two queries
     if n <= 5:
         ok, got = r.call('all', dict(sub0, input='signal-object'), pc.get_peak_indices, eqsig.AccSignal(np.array(w, dtype=float), 0.01))
